@@ -126,6 +126,9 @@ def generate(repo, ws, write_if_changed):
     emit("namespace_data_c06.rs", slice_file(repo, "types/src/namespace_data.rs", [
         dict(kind="fn", name="verify", impl=r"^impl NamespaceData$", wrap="impl NamespaceData"),
     ]))
+    emit("extended_header_c01.rs", slice_file(repo, "types/src/extended_header.rs", [
+        dict(kind="fn", name="validate", impl=r"^impl ExtendedHeader$", wrap="impl ExtendedHeader"),
+    ]))
     emit("commitment_c12.rs", slice_file(repo, "types/src/blob/commitment.rs", [
         dict(kind="fn", name="merkle_mountain_range_sizes"),
         dict(kind="fn", name="blob_min_square_size"),
